@@ -495,6 +495,49 @@ def run_c09(run_, rng, tier, exe):
         if r["exit"] != 2 and (cur is None or cur[2] not in (origb, wantb)):
             bad.append((0, "a read failing with EIO (read #%d): the run reports no fatal error and the target is neither in its original nor in its patched state (%s bytes, exit %d)" %
                         (k, "no" if cur is None else len(cur[2]), r["exit"]), dict(scenario=describe(bigs[0]), inject="read:error=EIO:when=%d" % k, exit=r["exit"])))
+    # (a6) a write that fails (ENOSPC, EIO on every write call of the run in turn): whatever the run says afterwards, the source
+    # of a rename is only gone when the destination holds the complete new content, and with -b the original content of
+    # every touched file is at its path or at its backup path
+    ws = []
+    for _ in range(8 if q else 60):
+        ws.append(scen.gen_scenario(rng, nsec=rng.choice([1, 2]), kinds=rng.choice([["rename"], ["rename", "change"], ["change"]]), opts=rng.choice([{}, {"b": 1}, {"b": 1}]), drift=0))
+    wbase = run_many(exe, ws, strace="write,openat", timeout=30)
+    wjobs = [(i_, k_, e_) for i_, r0_ in enumerate(wbase) for name_, k_, line_ in relevant_calls(r0_.get("trace", []), ["write"]) for e_ in ("ENOSPC", "EIO")]
+    import concurrent.futures
+    with concurrent.futures.ThreadPoolExecutor(max_workers=12) as ex:
+        wres = list(ex.map(lambda jb: l2.run_impl(exe, ws[jb[0]], strace="write,openat", inject="write:error=%s:when=%d" % (jb[2], jb[1]), timeout=30), wjobs))
+    for (i_, k_, e_), r_ in zip(wjobs, wres):
+        s_ = ws[i_]; t_ = tree_no_meta(r_["tree"])
+        run_.count("write fault %d %d %s" % (i_, k_, e_), True, "write fault -> exit %d" % r_["exit"])
+        d_ = None
+        for x in s_["secs"]:
+            if x["kind"] == "rename":
+                src = t_.get(x["path"]); dst = t_.get(x["newpath"])
+                if not (src and src[2] == s_["tree"][x["path"]][2]) and not (dst and dst[2] == emit.file_bytes(x["b"])):
+                    d_ = "write #%d failing with %s (exit %d): the rename source %s is gone and the destination %s %s" % (k_, e_, r_["exit"], x["path"], x["newpath"],
+                          "does not exist" if dst is None else "holds %d of %d bytes" % (len(dst[2]), len(emit.file_bytes(x["b"]))))
+        if d_ is None and s_["opts"].get("b"):
+            d_ = backup_ok(s_, r_["tree"])
+            if d_:
+                d_ = "write #%d failing with %s (exit %d): %s" % (k_, e_, r_["exit"], d_)
+        if d_:
+            bad.append((i_, d_, dict(scenario=describe(s_), inject="write:error=%s:when=%d" % (e_, k_), exit=r_["exit"], stderr=r_["stderr"].decode("latin-1")[-300:], tree=fmt_tree(r_["tree"]))))
+    run_.cov["write_fault_schedules"] = len(wjobs)
+    # (a7) a file that a section is to create is already there, with content, and cannot be read (mode 0200 / 0000): the run may
+    # not take "cannot open" for "not there yet" and write over it
+    ov = []
+    for _ in range(12 if q else 150):
+        sec = scen.section(rng, rng.choice(["nf", "nd/nf"]), kind="add", fmt=rng.choice(["unified", "git", "context"]), nonl=False)
+        s0 = scen.base_scenario(rng, [sec], opts=dict(rng.choice([{}, {}, {"f": 1}, {"N": 1}])))
+        scen.add_parents(s0["tree"], sec["path"]); s0["tree"][sec["path"]] = ("R", rng.choice([0o200, 0o000, 0o220]), b"precious\ncontent\n")
+        ov.append(s0)
+    def judge_ov(s, r):
+        p_ = s["secs"][0]["path"]; cur = tree_no_meta(r["tree"]).get(p_)
+        if cur is None or cur[2] != b"precious\ncontent\n":
+            return "%s existed with content (unreadable, mode %o) and was to be created by the patch: afterwards it %s (exit %d)" % (p_, s["tree"][p_][1], "is gone" if cur is None else "holds other content", r["exit"])
+        return None
+    _, b7_, m7_ = l2_family(run_, exe, ov, judge_ov, cls=lambda s, r: "create over unreadable exit %d" % r["exit"], label="C09a7")
+    bad += b7_; mism += m7_
     # (b) SIGKILL before every system call that touches the scenario
     ks = fault_scenarios(rng, 6 if q else 50)
     for _ in range(4 if q else 30):
